@@ -49,7 +49,7 @@ CHECKS = {
             'bounded-exhaustive enumeration of a value universe; every law evaluated on all ordered pairs and triples',
             'eq reflexive/symmetric/transitive, ne = not eq, eq => equal hash, operator agreement for opted-in classes, lt '
             'never raises, trichotomy, gt = swapped lt, lt transitive, sorting never raises: on every pair and triple of a '
-            'universe of 161 (quick) / ~376 (thorough, incl. systematically generated lists, tuples, dicts in every key '
+            'universe of 161 (quick) / ~387 (thorough, incl. systematically generated lists, tuples, dicts in every key '
             'order, objects) values, among them free-form keys in different orders, values mutated after being hashed '
             '(notifying and non-notifying writes), same-named classes and references.',
             BASE_NOTE),
